@@ -48,12 +48,17 @@ class C03(DiffProperty):
             "repeated decoder calls (resuming after every return code); (b) longer strings over the alphabet with random cuts, slack "
             "0..40 and 1-, 2-, 3-, 4-fragment layouts incl. empty fragments; (c) streams of 1-3 valid frames (lengths 0..3, around one and "
             "two maximal blocks, zero pairs at codes 1,2,31,32), 30% mutated (byte replaced/inserted/deleted), delivered whole, byte-wise or "
-            "at random cuts, with too little slack on purpose for ZPE, with peek/size calls sprinkled in. Fragments are separately allocated, "
+            "at random cuts, with too little slack on purpose for ZPE, with peek/size calls sprinkled in; (d) the command decoder mpt_decode_command "
+            "(variant 4) on streams of zero-terminated texts in arbitrary pieces over random fragment layouts (the 2-byte header is written in front "
+            "of the text, possibly across a fragment border), compared with the mechanism model cmd_call state by state; (e) COMPLETE well-formed "
+            "frames of all five framings with ample room in front, everything readable, fragment borders anywhere incl. exactly behind the decoded "
+            "bytes (where COBS/R stores the inlined tail byte): the specification demands that the j-th call DELIVERS the j-th frame. Fragments are separately allocated, "
             "16-byte aligned, exact-size heap blocks under ASan/UBSan. non-trivial = every case; distinct = distinct case text")
     modelled = ("mptcore/convert/decode_cobs.c (_decode, _decode_r) and decode_cobs_zpe.c macros in coq/Cobs/DecModel.v: state checks, "
                 "consumption of the previous message, target alignment (address residue = offset in the 16-aligned fragment), code byte read, "
-                "block loop with gap accounting, peek mode, size query, reset, COBS/R wrapper. mpt_decode_command (text framing), "
-                "mpt_message_read itself and queue_recv/queue_peek (C02) are not modelled here")
+                "block loop with gap accounting, peek mode, size query, reset, COBS/R wrapper. mpt_decode_command (text framing) in coq/Cobs/TextModel.v "
+                "(cmd_call: flat view of the readable fragments, non-peek). mpt_message_read itself is not modelled (the fragment walking is "
+                "observed through the decoders); queue_recv/queue_peek are modelled in coq/Cobs/QueueCodec.v (ring family, C02 harness)")
     trusted = ["fragment bases are 16-byte aligned in the harness (posix_memalign), so the address residue the C code adds is the offset inside the fragment"]
     assumptions = ["real memory safety of the C pointer walking is observed by ASan/UBSan on the explored cases, not proved"]
     level_text = ("proof: Coq theorems for EVERY byte list and every well-formed resume state: one decoder call writes only into the already "
@@ -67,7 +72,7 @@ class C03(DiffProperty):
                   "exhaustive small-string sweep")
     level_note = ("partial: (1) completeness (a well-formed frame IS delivered given enough gap) is proved for the block loop and for one call from a "
                   "state between messages (C03_call_delivers_accepted_frame, gap >= frame length + 16), and as liveness for a reader that makes room between messages (C03_spaced_reader_delivers_every_frame: every complete frame is delivered); liveness for a reader that only reacts to MissingBuffer: C03_call_never_refuses_complete_frame (a call in any state with any gap on a complete accepted frame delivers it or reports MissingBuffer in a state that is live again; never 'more input', never a decoding error), completed at ring level by C02_ring_round_delivers; C03_call_no_error_on_stream_prefix (on any prefix of a well-formed stream -- complete frames, the last one cut anywhere -- a call in any state with any gap yields a message, 'more input' or MissingBuffer, never a decoding error); (2) peek mode is covered by the correspondence run only (the call-level history theorem continues through MissingBuffer, "
-                  "incl. resumption in the middle of a ZPE zero pair after the caller made room, and ends at a genuine decoding error). mpt_decode_command is covered by its own call-level and history theorems (C03_command_call_honest, C03_command_history_delivers; single-fragment, non-peek model) and by the C01 correspondence run. "
+                  "incl. resumption in the middle of a ZPE zero pair after the caller made room, and ends at a genuine decoding error). mpt_decode_command is covered by its own call-level and history theorems (C03_command_call_honest, C03_command_history_delivers; flat, non-peek model) and tied by family (d): state and buffer image after every call on multi-fragment layouts. "
                   "Termination: the model is structurally recursive on the input (each byte read at most once); C-level termination is observed (per-case timeout). "
                   "All theorems closed under the global context.")
     technique = "Coq proofs over the in-place decoder model (safety region, gap invariant, honesty, completeness) + exhaustive small-scope differential check"
@@ -115,6 +120,27 @@ class C03(DiffProperty):
                     r["spec"] = (j, a, "a message among the reference decodings %s of the remaining frames" % ",".join(frames[k:][:6]))
                     break
                 k = idx + 1
+            # completeness (C03_call_never_refuses_complete_frame): the whole stream readable from the first call on, made of
+            # well-formed frames only, and room of stream length + 16 in front (2 for the command decoder): the j-th call
+            # delivers the j-th frame
+            if r["spec"] is None:
+                t = case.split()
+                v, slack = int(t[0]), int(t[1])
+                stream = t[3] if t[3] != "-" else ""
+                n = len(stream) // 2
+                ops = t[4:]
+                if (len(ops) >= 3 and ops[0] == "vis" and int(ops[1]) >= slack + n and all(o == "dec" for o in ops[2:])
+                        and n and stream.endswith("00") and slack >= (2 if v == 4 else n + 16)):
+                    nz = sum(1 for q in range(0, len(stream), 2) if stream[q:q + 2] == "00")
+                    b = st[1] if len(st) > 1 else "L:"
+                    frames = b[2:].split(",") if len(b) > 2 else []
+                    if len(frames) == nz and "X" not in frames:
+                        for j in range(nz):
+                            a = self.project(it[1 + j]) if 1 + j < len(it) else "missing"
+                            if a != "D:1|" + frames[j]:
+                                r["spec"] = (1 + j, it[1 + j] if 1 + j < len(it) else "-",
+                                             "the complete, well-formed frame %d is delivered: %s" % (j, frames[j]))
+                                break
         return r
 
     RING_OPS = {"rraw": "raw", "rrecv": "recv", "rpeek": "peek", "rpeekn": "peekn"}
@@ -214,6 +240,18 @@ class C03(DiffProperty):
                 cl.add("op:" + o[0])
         return cl
 
+    @staticmethod
+    def rand_layout(rng, total, slack=0):
+        """fragment lengths with borders at random positions (some just behind the room in front, zero-length fragments between)"""
+        k = rng.choice([0, 1, 1, 2, 3, 5])
+        pts = sorted(rng.choice([rng.randrange(0, total + 1), rng.randrange(0, total + 1), slack, max(0, slack - 1), max(0, slack - 2)]) for _ in range(k))
+        out, pos = [], 0
+        for q in pts:
+            out.append(str(q - pos)); pos = q
+            if rng.random() < 0.15:
+                out.append("0")
+        return ",".join(out + ["100000"])
+
     def script(self, rng, total, slack, nframes, cuts):
         ops = []
         for c in cuts + [total]:
@@ -300,6 +338,48 @@ class C03(DiffProperty):
             if rng.random() < 0.05:
                 ops.insert(rng.randrange(len(ops) + 1) // 1, "reset") if False else None
             cases.append(" ".join([str(v), str(slack), rng.choice(LAYOUTS), hx(stream)] + ops))
+        # the command decoder (variant 4: zero-terminated text, mechanism model Cobs/TextModel.cmd_call): texts in arbitrary
+        # pieces over fragment layouts -- the header is written 2 bytes in front of the text, possibly across a fragment border
+        nt = 2500 if tier == "quick" else 60000
+        for i in range(nt):
+            stream = []
+            for _ in range(rng.choice([1, 1, 2, 3, 4])):
+                stream += [rng.choice([0x41, 0x20, 0x01, 0xff, rng.randrange(1, 256)]) for _ in range(rng.choice([0, 1, 2, 3, 5, 9, 30]))] + [0]
+            if rng.random() < 0.2:
+                stream += [rng.randrange(1, 256) for _ in range(rng.choice([1, 4]))]        # unterminated tail
+            if rng.random() < 0.15 and stream:
+                stream.insert(rng.randrange(len(stream)), 0)                                 # empty text somewhere
+            n = len(stream)
+            slack = rng.choice([0, 1, 2, 2, 3, 5, 16])
+            total = slack + n
+            cuts = sorted(set(rng.randrange(0, n + 1) for _ in range(rng.choice([0, 1, 2, 4])))) if rng.random() < 0.7 else list(range(1, n))
+            ops = []
+            for c in cuts + [n]:
+                ops += ["vis", str(slack + c), "dec"] + (["dec"] if rng.random() < 0.5 else [])
+            ops += ["dec"] * (stream.count(0) + 1)
+            cases.append(" ".join(["4", str(slack), self.rand_layout(rng, total), hx(stream)] + ops))
+        # COMPLETE frames with ample room, everything readable, fragment borders anywhere (also inside the room in front and
+        # exactly behind a frame's decoded bytes, where COBS/R stores the inlined tail byte): each call must DELIVER the next
+        # frame (C03_call_never_refuses_complete_frame / dec_call_complete; checked by the specification, see compare)
+        nc = 3000 if tier == "quick" else 80000
+        for i in range(nc):
+            v = i % 5
+            ml = 255 if v < 2 else 223
+            stream = []
+            nf = rng.choice([1, 2, 2, 3, 4])
+            for _ in range(nf):
+                if v == 4:
+                    stream += [rng.randrange(1, 256) for _ in range(rng.choice([0, 1, 2, 3, 7, 20]))] + [0]
+                else:
+                    n = rng.choice([0, 1, 2, 3, 4, 6, 9, 30, ml - 1, ml, ml + 3])
+                    m = [0 if rng.random() < 0.2 else rng.randrange(1, 256) for _ in range(n)]
+                    if m and rng.random() < 0.6:
+                        m[-1] = rng.randrange(max(2, min(len(m) + 2, 255)), 256)     # large last byte: tail inline for COBS/R
+                    stream += py_cobs(m, v)
+            n = len(stream)
+            slack = (n + 16 + rng.choice([0, 1, 7])) if v < 4 else rng.choice([2, 3, 5, n + 16])
+            total = slack + n
+            cases.append(" ".join([str(v), str(slack), self.rand_layout(rng, total, slack), hx(stream), "vis", str(total)] + ["dec"] * (nf + 1)))
         # ring level: mpt_queue_recv (incl. its MissingBuffer recovery) and mpt_queue_peek on rings of small capacities and
         # arbitrary offsets, fed with valid frames (long ZPE messages whose decoded part exceeds the 256-byte move chunks,
         # frames that wrap), mutated frames and arbitrary bytes, in arbitrary pieces, with peeks (with and without target) between
